@@ -3,6 +3,7 @@ package vuego
 import (
 	"context"
 	"errors"
+	"sync/atomic"
 	"io"
 	"io/fs"
 	"sort"
@@ -29,6 +30,7 @@ func contextBackground() context.Context { return zzCtx{} }
 type zzFS struct {
 	files map[string]string
 	mtime map[string]int64 // 0 = zero time
+	gen   atomic.Int64     // added to every non-zero modification time (bumped by concurrent harnesses)
 }
 
 func newZZFS(files map[string]string) *zzFS { return &zzFS{files: files, mtime: map[string]int64{}} }
@@ -48,6 +50,14 @@ func (i zzInfo) Mode() fs.FileMode {
 	}
 	return 0o444
 }
+func (f *zzFS) mt(name string) int64 {
+	m := f.mtime[name]
+	if m == 0 {
+		return 0
+	}
+	return m + f.gen.Load()
+}
+
 func (i zzInfo) ModTime() time.Time {
 	if i.mtime == 0 {
 		return time.Time{}
@@ -80,7 +90,7 @@ func (f *zzFS) isDir(name string) bool {
 
 func (f *zzFS) Stat(name string) (fs.FileInfo, error) {
 	if c, ok := f.files[name]; ok {
-		return zzInfo{name: zzBase(name), size: int64(len(c)), mtime: f.mtime[name]}, nil
+		return zzInfo{name: zzBase(name), size: int64(len(c)), mtime: f.mt(name)}, nil
 	}
 	if f.isDir(name) {
 		return zzInfo{name: zzBase(name), dir: true}, nil
@@ -125,7 +135,7 @@ func (f *zzFS) ReadDir(name string) ([]fs.DirEntry, error) {
 			full = name + "/" + n
 		}
 		if c, ok := f.files[full]; ok {
-			out = append(out, zzInfo{name: n, size: int64(len(c)), mtime: f.mtime[full]})
+			out = append(out, zzInfo{name: n, size: int64(len(c)), mtime: f.mt(full)})
 		} else {
 			out = append(out, zzInfo{name: n, dir: true})
 		}
@@ -152,7 +162,7 @@ func (z *zzFile) Read(p []byte) (int, error) {
 
 func (f *zzFS) Open(name string) (fs.File, error) {
 	if c, ok := f.files[name]; ok {
-		return &zzFile{info: zzInfo{name: zzBase(name), size: int64(len(c)), mtime: f.mtime[name]}, data: c}, nil
+		return &zzFile{info: zzInfo{name: zzBase(name), size: int64(len(c)), mtime: f.mt(name)}, data: c}, nil
 	}
 	if f.isDir(name) {
 		return &zzFile{info: zzInfo{name: zzBase(name), dir: true}}, nil
@@ -176,12 +186,17 @@ func zzRenderFile(fsys fs.FS, name string, data map[string]any) (string, error) 
 
 // zzWriter accepts at most limit bytes, then fails.
 type zzWriter struct {
-	limit int
-	got   []byte
-	fails int
+	limit     int
+	got       []byte
+	fails     int
+	transient bool // only the first write that crosses the limit fails; later writes are accepted
 }
 
 func (w *zzWriter) Write(p []byte) (int, error) {
+	if w.transient && w.fails > 0 {
+		w.got = append(w.got, p...)
+		return len(p), nil
+	}
 	room := w.limit - len(w.got)
 	if len(p) <= room {
 		w.got = append(w.got, p...)
